@@ -50,3 +50,26 @@ Proof.
   - apply min_xat_spec. apply trunc56_range.
   - apply min_xat_spec. exact Hv.
 Qed.
+
+(** MGET form: member j of the reply array is committed under key j of the command, the shared
+    GET / JSON.GET identity, and with the PTTL reply at the same position *)
+Lemma mget_calls_spec s cc replies now : forall msgs i,
+  (forall j, (j < length msgs)%nat -> exists k p, nth_error s (S (i + j)) = Some k /\ nth_error replies (i + j) = Some p) ->
+  exists l, mget_calls s cc replies msgs i now = Ok l /\ length l = length msgs /\
+    forall j cp, nth_error msgs j = Some cp ->
+      exists k p, nth_error s (S (i + j)) = Some k /\ nth_error replies (i + j) = Some p /\
+                  nth_error l j = Some (SUpdate k cc (with_pttl (set_mark cp true) (m_intlen p) now)).
+Proof.
+  induction msgs as [|cp r IH]; intros i H.
+  - exists []. split; [reflexivity|]. split; [reflexivity|]. intros j cp Hj. destruct j; discriminate.
+  - cbn [mget_calls]. destruct (H 0%nat ltac:(cbn; lia)) as [k [p [Hk Hp]]]. rewrite Nat.add_0_r in Hk, Hp.
+    unfold mget_cache_key. rewrite Hk, Hp.
+    destruct (IH (S i)) as [l [Hl [Hlen Hall]]].
+    { intros j Hj. destruct (H (S j) ltac:(cbn; lia)) as [k' [p' [A B]]]. exists k', p'.
+      rewrite Nat.add_succ_r in A, B. split; assumption. }
+    rewrite Hl. eexists. split; [reflexivity|]. split; [cbn; rewrite Hlen; reflexivity|].
+    intros j cp0 Hj. destruct j as [|j].
+    + injection Hj as <-. exists k, p. rewrite Nat.add_0_r. repeat split; assumption.
+    + cbn [nth_error] in Hj. destruct (Hall j cp0 Hj) as [k' [p' [A [B C]]]]. exists k', p'.
+      rewrite Nat.add_succ_r. repeat split; assumption.
+Qed.
